@@ -83,7 +83,8 @@ impl ModelCheck {
 
 impl Check for ModelCheck {
     fn run_one(&self, run: u64, rng: Rng, stats: &mut Stats) -> Vec<Violation> {
-        let tables = gen_tables(&mut rng.fork("tables"), self.max_rows);
+        let sort_stress = self.focus == Focus::Sorting && rng.fork("stress").chance(1, 2);
+        let tables = if sort_stress { crate::sql::qgen::gen_sort_tables(&mut rng.fork("tables"), self.max_rows) } else { gen_tables(&mut rng.fork("tables"), self.max_rows) };
         let db = db_of(&tables);
         let knobs = Knobs::draw(&mut rng.fork("knobs"), self.small_batches);
         let sim = draw_sim(&mut rng.fork("sim"), true);
@@ -96,7 +97,7 @@ impl Check for ModelCheck {
         let nsetup = stmts.len();
         let mut queries = Vec::new();
         for _ in 0..self.queries_per_run {
-            let q = g.gen_query();
+            let q = if sort_stress { g.gen_sort_query() } else { g.gen_query() };
             stmts.push(Stmt::new(print::query(&q)));
             queries.push(q);
         }
